@@ -223,6 +223,30 @@ def str_prefix(py, e: ast.AST) -> str:
     return ""
 
 
+def table_keys_kept(ctx, rep):
+    """dictionary-valued attributes (the pub_* tables) keep the keys they were written with: the key is the name under
+    which the exporting module knows the entity (possibly a rename), not the entity's own name"""
+    py = ctx.py
+    o2d = py.func("external_project.obj2dict")
+    d2o = py.func("external_project.dict2obj")
+    for fn2, who in ((o2d, "obj2dict"), (d2o, "dict2obj")):
+        comps = [n for n in ast.walk(fn2) if isinstance(n, ast.DictComp)]
+        stores = [n for n in ast.walk(fn2) if isinstance(n, ast.Assign) and isinstance(n.targets[0], ast.Subscript)
+                  and isinstance(n.targets[0].value, ast.Name) and any(isinstance(x, ast.For) and any(n is y for y in ast.walk(x))
+                                                                         and ".items()" in ast.unparse(x.iter) for x in ast.walk(fn2))]
+        if not comps and not stores:
+            raise AnalysisError(f"{who}: handling of dictionary-valued attributes not found")
+        for c in comps:
+            g = c.generators[0]
+            kvar = g.target.elts[0].id if isinstance(g.target, ast.Tuple) and isinstance(g.target.elts[0], ast.Name) else None
+            ok = kvar is not None and isinstance(c.key, ast.Name) and c.key.id == kvar
+            rep.ob(f"{who}: table keys are kept as written", ok,
+                   "the comprehension re-uses the stored key" if ok else
+                   f"`{ast.unparse(c)[:80]}` builds the table keys from `{ast.unparse(c.key)}`: an entity exported under a "
+                   f"renamed local name (`use m, only: paint => draw`) comes back under its original name and the importing "
+                   f"project cannot resolve `paint`", py.nloc(c))
+
+
 def r2_tables_agree(ctx, rep):
     py = ctx.py
     attrs = const_list(py, "external_project", "ATTRIBUTES")
@@ -294,6 +318,7 @@ def r2_tables_agree(ctx, rep):
            "writer prefixes './', reader strips one leading path component" if w and r else
            f"the './' prefix convention differs between obj2dict (prefixes written: {sorted(prefixes)}) and dict2obj "
            f"(strips one component: {r})", py.nloc(d2o))
+    table_keys_kept(ctx, rep)
     # Ext classes: constructor signature (name, url, parent) and the attributes dict2obj relies on
     for k in ents:
         pass
@@ -593,6 +618,20 @@ def r7_url_types(ctx, rep):
            f"which the handler does not cover: an absolute local path aborts the run", py.nloc(where))
 
 
+
+def r8_use_over_host(ctx, rep):
+    """an external entity reaches a scope through USE: use association must override host association in the scope
+    tables (shared with C07.R2), otherwise a same-named entity of the host is linked instead"""
+    from . import c07
+    c07.r2_innermost_wins(ctx, rep, only_use=True)
+
+
+def r9_ident_key(ctx, rep):
+    """the export must not identify entities by `ident` alone (shared with C10.R6): a type and its constructor interface
+    share it, and one would replace the other in modules.json"""
+    from . import c10
+    c10.r6_ident_not_a_key(ctx, rep)
+
 RULES = [
     RuleSpec("C16.R6", r6_fresh_objects_and_node_urls, "one object per exported entity; external node URLs unchanged", floor=1),
     RuleSpec("C16.R1", r1_error_coverage, "exception coverage of the external load path", floor=5),
@@ -601,4 +640,6 @@ RULES = [
     RuleSpec("C16.R4", r4_export_scope, "export scope and external_url short-circuit", floor=2),
     RuleSpec("C16.R5", r5_remote_base_url, "remote base URL normalised before urljoin", floor=1),
     RuleSpec("C16.R7", r7_url_types, "external URLs are strings; the local base is a Path", floor=2),
+    RuleSpec("C16.R8", r8_use_over_host, "use association overrides host association (shared with C07.R2)", floor=4),
+    RuleSpec("C16.R9", r9_ident_key, "entities are not identified by ident alone (shared with C10.R6)", floor=1),
 ]
